@@ -1001,6 +1001,16 @@ theorem rab_sim {σ : Type} (A : Rab σ) (hblk : 0 < A.blk) : ∀ fuel (s : RabS
   drain_sim' (fun s => RabSt.next A (2 * s.r.data.length + 4) s) (cutRab A) (RabInv A) rabRem (fun s => s.pos)
     (fun s hi hne => rab_some A hblk s hi hne) (fun s hi h0 => rab_none A hblk s hi h0)
 
+theorem rabFinish_cases {σ : Type} (A : Rab σ) (pre count pos : Nat) (dig : Option σ) (U : Bytes) :
+    (∃ c, cdcScan A.toCdc (dig.getD (A.init (pos + pre))) (count + pre) (U.drop pre) = some c ∧
+        rabFinish A pre count pos dig U = c) ∨
+    (cdcScan A.toCdc (dig.getD (A.init (pos + pre))) (count + pre) (U.drop pre) = none ∧
+        rabFinish A pre count pos dig U = count + U.length) := by
+  unfold rabFinish
+  cases h : cdcScan A.toCdc (dig.getD (A.init (pos + pre))) (count + pre) (U.drop pre) with
+  | none => exact Or.inr ⟨rfl, rfl⟩
+  | some c => exact Or.inl ⟨c, rfl, rfl⟩
+
 theorem rabChunks_eq {σ : Type} (A : Rab σ) (hblk : 0 < A.blk) (rd : Rd) :
     rabChunks A rd = specChunks (cutRab A) (rd.data.length + 1) 0 rd.data := by
   simp only [rabChunks]
@@ -1010,16 +1020,17 @@ theorem rabChunks_eq {σ : Type} (A : Rab σ) (hblk : 0 < A.blk) (rd : Rd) :
 theorem cutRab_ok {σ : Type} (A : Rab σ) : CutOk (cutRab A) := by
   intro off d hd
   have hl : 0 < d.length := List.length_pos_iff.mpr hd
-  simp only [cutRab, rabFinish]
-  split
-  · rename_i c hc
-    have := cdcScan_bounds A.toCdc _ _ _ _ hc
-    simp only [List.length_drop] at this
+  rcases rabFinish_cases A A.pre0 0 off none d with ⟨c, hc, he⟩ | ⟨_, he⟩
+  · have hb := cdcScan_bounds A.toCdc _ _ _ _ hc
+    rw [List.length_drop] at hb
+    have hcut : cutRab A off d = c := he
+    rw [hcut]
     by_cases hp : A.pre0 ≤ d.length
     · omega
     · have : d.drop A.pre0 = [] := List.drop_eq_nil_iff.mpr (by omega)
       rw [this] at hc; simp [cdcScan] at hc
-  · omega
+  · have hcut : cutRab A off d = 0 + d.length := he
+    rw [hcut]; omega
 
 /-- parameters as the parser guarantees them: window ≤ min ≤ max (so `pre` does not wrap) -/
 def RabOk {σ : Type} (A : Rab σ) : Prop :=
@@ -1027,38 +1038,45 @@ def RabOk {σ : Type} (A : Rab σ) : Prop :=
 
 theorem pre0_eq {σ : Type} (A : Rab σ) (h : RabOk A) : A.pre0 = A.min - A.win := by
   obtain ⟨_, h2, _, h4, _⟩ := h
-  simp only [Rab.pre0]
+  unfold Rab.pre0
   have : A.min + 2 ^ 64 - A.win = (A.min - A.win) + 2 ^ 64 := by omega
   rw [this, Nat.add_mod_right, Nat.mod_eq_of_lt (by omega)]
 
 theorem cutRab_le_max {σ : Type} (A : Rab σ) (h : RabOk A) (off : Nat) (d : Bytes) : cutRab A off d ≤ A.max := by
   have hp := pre0_eq A h
   obtain ⟨h1, h2, h3, h4, _⟩ := h
-  have hplt : A.pre0 < A.toCdc.max := by simp only [Rab.toCdc]; omega
-  simp only [cutRab, rabFinish, Nat.zero_add]
-  split
-  · rename_i c hc
+  have hplt : 0 + A.pre0 < A.toCdc.max := by show 0 + A.pre0 < A.max; omega
+  rcases rabFinish_cases A A.pre0 0 off none d with ⟨c, hc, he⟩ | ⟨hc, he⟩
+  · have hcut : cutRab A off d = c := he
+    rw [hcut]
     exact cdcScan_le_max A.toCdc h3 _ _ _ _ hc hplt
-  · rename_i hc
+  · have hcut : cutRab A off d = 0 + d.length := he
+    rw [hcut]
     have := cdcScan_none_lt A.toCdc h3 _ _ _ hc hplt
-    simp only [List.length_drop, Rab.toCdc] at this hplt
+    rw [List.length_drop] at this
+    have hm : A.toCdc.max = A.max := rfl
+    rw [hm] at this
     omega
 
 theorem cutRab_ge_min {σ : Type} (A : Rab σ) (off : Nat) (d : Bytes) (hlt : cutRab A off d < d.length) :
     A.min ≤ cutRab A off d := by
-  simp only [cutRab, rabFinish, Nat.zero_add] at hlt ⊢
-  split
-  · rename_i c hc; exact (cdcScan_bounds A.toCdc _ _ _ _ hc).2.2
-  · rename_i hc; rw [hc] at hlt; simp at hlt
+  rcases rabFinish_cases A A.pre0 0 off none d with ⟨c, hc, he⟩ | ⟨hc, he⟩
+  · have hcut : cutRab A off d = c := he
+    rw [hcut]
+    exact (cdcScan_bounds A.toCdc _ _ _ _ hc).2.2
+  · have hcut : cutRab A off d = 0 + d.length := he
+    rw [hcut] at hlt; omega
 
 /-- with `MinSize < windowSize` the unhashed prefix `MinSize - windowSize` wraps around: everything is one chunk -/
 theorem cutRab_small_min {σ : Type} (A : Rab σ) (hmin : A.min < A.win) (hw : A.win ≤ 2 ^ 64) (off : Nat) (d : Bytes)
     (hd : d.length ≤ 2 ^ 64 - A.win) : cutRab A off d = d.length := by
   have hp : d.length ≤ A.pre0 := by
-    simp only [Rab.pre0]
+    unfold Rab.pre0
     rw [Nat.mod_eq_of_lt (by omega)]; omega
-  simp only [cutRab, rabFinish, List.drop_eq_nil_iff.mpr hp, cdcScan, Nat.zero_add]
-
+  rcases rabFinish_cases A A.pre0 0 off none d with ⟨c, hc, he⟩ | ⟨hc, he⟩
+  · rw [List.drop_eq_nil_iff.mpr hp] at hc; simp [cdcScan] at hc
+  · have hcut : cutRab A off d = 0 + d.length := he
+    rw [hcut]; omega
 end C06
 
 namespace C06
@@ -1089,7 +1107,8 @@ theorem rabinOfAvg_wf (L : Limits) (n : Nat) (h1 : L.rabinMinFloor ≤ n / 3) (h
 
 theorem parseRabin_sound (L : Limits) (hL : L.ok) (parts : List (List Char)) (spec : Spec)
     (h : parseRabin L parts = some spec) : spec.wf L := by
-  obtain ⟨hf, hd, hdm, hdf⟩ := hL
+  obtain ⟨hf16, _, hd, hdm, hdf⟩ := hL
+  have hf : 0 < L.rabinMinFloor := by omega
   unfold parseRabin at h
   split at h
   · cases h; exact rabinOfAvg_wf L _ hdf hdm hf
@@ -1136,7 +1155,7 @@ theorem parseChars_sound (L : Limits) (hL : L.ok) (cs : List Char) (spec : Spec)
   unfold parseChars at h
   split at h
   · cases h
-    obtain ⟨_, hd, hdm, _⟩ := hL
+    obtain ⟨_, _, hd, hdm, _⟩ := hL
     simp only [Spec.wf]; omega
   · simp only at h
     split at h
@@ -1146,5 +1165,34 @@ theorem parseChars_sound (L : Limits) (hL : L.ok) (cs : List Char) (spec : Spec)
       · split at h
         · cases h; trivial
         · cases h
+
+/-! ## registry -/
+
+theorem register_mono (reg reg' : Registry) (n : List Char) (h : register reg n = some reg') :
+    ∀ m ∈ reg, m ∈ reg' := by
+  unfold register at h
+  split at h
+  · cases h
+  · cases h; intro m hm; exact List.mem_cons_of_mem _ hm
+
+theorem parseWith_register (L : Limits) (reg reg' : Registry) (n : List Char) (h : register reg n = some reg')
+    (cs : List Char) (hk : cs = [] ∨ cs = ['d', 'e', 'f', 'a', 'u', 'l', 't'] ∨ (splitOn '-' cs).head! ∈ reg) :
+    parseWith L reg' cs = parseWith L reg cs := by
+  unfold parseWith
+  by_cases hd : cs = [] ∨ cs = ['d', 'e', 'f', 'a', 'u', 'l', 't']
+  · simp only [hd, if_true]
+  · simp only [hd, if_false]
+    have hin : (splitOn '-' cs).head! ∈ reg := by
+      rcases hk with h1 | h1 | h1
+      · exact absurd (Or.inl h1) hd
+      · exact absurd (Or.inr h1) hd
+      · exact h1
+    have hin' := register_mono reg reg' n h _ hin
+    simp only [hin, hin', if_true]
+
+theorem register_builtin_panics (reg : Registry) (n : List Char) (hb : ∀ m ∈ builtinNames, m ∈ reg)
+    (hn : n ∈ builtinNames) : register reg n = none := by
+  unfold register
+  rw [if_pos (Or.inr (Or.inr (hb n hn)))]
 
 end C06
